@@ -37,3 +37,69 @@ Theorem c02_into_lines_le : forall b, Inv b ->
   | Panic _ => False | OutOfFuel => False end.
 Proof. exact WrapInv.wb_into_lines_total. Qed.
 Print Assumptions c02_into_lines_le.
+
+(* ---------- the whole renderer (Proofs/RenderWidth.v) ----------
+   Every line of every sub-renderer produced by render_tree -- blocks, prefixes
+   (blockquote, lists with padded markers, dt/dd), pre, tables (horizontal and vertical
+   layout, nested), borders, footnote lists -- is at most `width` columns wide when
+   overflow is not allowed.  Side conditions, all decidable (the harness checker treats
+   an over-wide line outside them -- the wide link-target character -- as the recorded finding):
+   - the decorator's ordered-list prefix width is monotone in the number
+     (proved below for the three shipped decorators);
+   - when footnotes are on, link wrapping is on and no single link-target character
+     is wider than the width (tree_ok); the complement is the recorded finding
+     C02 footnote_wide_char;
+   - <ol start> above i64::MIN (the numbering arithmetic saturates upward only). *)
+From H2T Require Import Sub Css Dom Render Api Proofs.RenderWidth.
+
+Theorem c02_render_width_bound :
+  forall (d : deco) (min_wrap : N) (o : ropts) (width : N) (tree : rnode) (s : subr),
+  ol_prefix_monotone d -> ol_prefix_sat d ->
+  o_allow_overflow o = false ->
+  (o_footnotes o = true -> o_wrap_links o = true) ->
+  1 <= width ->
+  c02_side o width tree = true ->
+  render_tree d min_wrap o width tree = Ok s ->
+  forall ls, sub_into_lines s = Ok ls -> forall r, In r ls -> rline_width r <= width.
+Proof. exact RenderWidth.c02_render_width_bound. Qed.
+Print Assumptions c02_render_width_bound.
+
+(* with footnotes off there is no side condition on the text at all besides <ol start> *)
+Theorem c02_render_width_bound_w2 :
+  forall (d : deco) (min_wrap : N) (o : ropts) (width : N) (tree : rnode) (s : subr),
+  ol_prefix_monotone d -> ol_prefix_sat d ->
+  o_allow_overflow o = false ->
+  (o_footnotes o = true -> o_wrap_links o = true) ->
+  2 <= width ->
+  c02_side o 2 tree = true ->
+  render_tree d min_wrap o width tree = Ok s ->
+  forall ls, sub_into_lines s = Ok ls -> forall r, In r ls -> rline_width r <= width.
+Proof. exact RenderWidth.c02_render_width_bound_w2. Qed.
+Print Assumptions c02_render_width_bound_w2.
+
+(* the public route: parse result -> render tree -> lines *)
+Theorem c02_lines_from_read :
+  forall inline_styles doc_rules (c : config) (doc : list node) (w : N) (ls : list tline),
+  ol_prefix_monotone (c_deco c) -> ol_prefix_sat (c_deco c) ->
+  c_overflow c = false ->
+  (c_footnotes c = true -> c_wrap_links c = true) ->
+  c02_doc_side inline_styles doc_rules c doc w = true ->
+  lines_from_read inline_styles doc_rules c doc w = Ok ls ->
+  forall l, In l ls -> tl_width_raw l <= w.
+Proof. exact RenderWidth.c02_lines_from_read. Qed.
+Print Assumptions c02_lines_from_read.
+
+Theorem c02_shipped_decorators_ok :
+  (ol_prefix_monotone plain_deco /\ ol_prefix_sat plain_deco) /\
+  (ol_prefix_monotone rich_deco /\ ol_prefix_sat rich_deco) /\
+  (ol_prefix_monotone trivial_deco /\ ol_prefix_sat trivial_deco).
+Proof.
+  repeat split.
+  - exact RenderWidth.ol_prefix_monotone_plain.
+  - exact RenderWidth.ol_prefix_sat_plain.
+  - exact RenderWidth.ol_prefix_monotone_rich.
+  - exact RenderWidth.ol_prefix_sat_rich.
+  - exact RenderWidth.ol_prefix_monotone_trivial.
+  - exact RenderWidth.ol_prefix_sat_trivial.
+Qed.
+Print Assumptions c02_shipped_decorators_ok.
